@@ -1,4 +1,6 @@
 """C10 - delayed reactions deliver their delayed part exactly once, after the delay."""
+import warnings
+
 import numpy as np
 
 from common import driver_batch, f2b, b2f
@@ -247,6 +249,34 @@ def continued_run(ctx, seed):
             ctx.count("continued_runs")
 
 
+def entry_point_grids(ctx, seed):
+    """py_simulate_model(delay=True) on a uniform and on a refined (non-uniform) grid: G -> G at rate 1 with a delayed product P
+    (fixed delay 20, Gaussian(20, 1)): no P before t = 19 resp. 10, P arrives from t = 21 on."""
+    from bioscrape.types import Model
+    from bioscrape.simulator import py_simulate_model
+    from bioscrape.random import py_seed_random
+    grids = {"uniform": np.linspace(0, 100.0, 101), "refined": np.concatenate([np.arange(0, 50.0, 1.0), np.arange(50.0, 100.5, 0.5)])}
+    for dl, earliest in ((("fixed", {"delay": 20.0}), 19.0), (("gaussian", {"mean": 20.0, "std": 1.0}), 10.0)):
+        for gname, T in grids.items():
+            for vol in (False, True):
+                case = {"scenario": "py_simulate_model(delay=True)", "delay": dl[0], "grid": gname, "volume": vol, "seed": seed}
+                ctx.begin_case(case)
+                M = Model(species=["G", "P"], reactions=[(["G"], ["G"], "massaction", {"k": 1.0}, dl[0], [], ["P"], dl[1])], initial_condition_dict={"G": 1, "P": 0})
+                py_seed_random(int(seed))
+                with warnings.catch_warnings():
+                    warnings.simplefilter("ignore")
+                    r = py_simulate_model(T.copy(), Model=M, stochastic=True, delay=True, volume=vol, return_dataframe=False)
+                rows = np.array(r.py_get_result(), dtype=float)
+                ctx.evaluated()
+                pcol = rows[:, M.get_species_list().index("P")]
+                early = [float(t) for t, v in zip(T, pcol) if t < earliest and v != 0]
+                if early or pcol[-1] < 40:
+                    ctx.violation("delivery-time/entry-point", "py_simulate_model(delay=True, volume=%s) on the %s grid, %s delay 20: P reported at t=%s (demanded: not before %g), "
+                                  "P at the end %g (about 80 expected)" % (vol, gname, dl[0], early[:3], earliest, pcol[-1]), case)
+                    return
+                ctx.count("entry_point_grid_cases")
+
+
 def sampler_corr(ctx, rng):
     """Delay samplers: the model's draws equal py_normal_rv / py_gamma_rv / py_uniform_rv bit for bit; KS support."""
     from bioscrape.random import py_seed_random, py_normal_rv, py_gamma_rv, py_uniform_rv, py_exponential_rv
@@ -330,6 +360,8 @@ def run(ctx):
         step_by_step(ctx, seeds[0])
         if i % 4 == 0:
             continued_run(ctx, seeds[0])
+        if i % 6 == 0:
+            entry_point_grids(ctx, seeds[0])
         # fixed delays placed relative to the simulated horizon (the queue has as many slots as grid points):
         # just inside, at, and just beyond it
         fixed = [r for r in spec["reactions"] if (r.get("delay") or {}).get("type") == "fixed"]
